@@ -12,10 +12,10 @@ def run(ctx):
                 "ever follows and receive never blocks; on the closing side send -> OSError, isclosed, waitclose immediate, second close a no-op; "
                 "(c) scenarios: ending by exec end / remote raise / local close / reference drop with 1-3 blocked receivers and a waitclose caller, "
                 "sibling conversation active: items before the close all received, EOF repeated for every receiver, no item after waitclose")
-    netprops.op_level(ctx, res, PROP, ctx.budget(400, 4000, 600))
+    netprops.op_level(ctx, res, PROP, ctx.budget(400, 24000, 600))
     # two-step receive (get … put the ENDMARKER back) against Model/NetFine.lean, guarded and unguarded histories
-    netfine.fine_level(ctx, res, PROP, ctx.budget(80, 2500, 300))
-    netprops.run_scenarios(ctx, res, netprops.scenario_close, ctx.budget(200, 8000, 600), "close")
+    netfine.fine_level(ctx, res, PROP, ctx.budget(80, 15000, 300))
+    netprops.run_scenarios(ctx, res, netprops.scenario_close, ctx.budget(200, 48000, 600), "close")
     return res
 
 
